@@ -22,6 +22,7 @@ RULE = (
     "under the choice-point explorer over all iteration orders of Axis.neighbours/Wire.coincidents (exhaustive below "
     "the per-script cap, else deviation-bounded); a refused write() is repeated once on the same mesh and must end "
     "the same way. non-trivial = at least 2 blocks in contact and >1 schedule or >1 variant"
+    " Deviation two_equal_sections: the family's chop as two sections with identical arguments."
 )
 ASSUMPTIONS = [
     "any permutation of an identity-hashed set of <=6 elements is realisable by some address assignment",
